@@ -57,6 +57,7 @@ type srtRendering struct {
 	LongHours  bool   `json:"long_hours"`           // unused marker (hours >= 100 come from the model)
 	EndSep     string `json:"end_sep,omitempty"`    // millisecond separator of the end time when it differs from the start's
 	CoordForm  int    `json:"coord_form,omitempty"` // 1: coordinates with a decimal point, 2: with a decimal comma
+	FontExtra  int    `json:"font_extra,omitempty"` // font tags carry other attributes: 1 after the colour, 2 before it, 3 two after it
 }
 
 func fmtSRTTime(ms int64, sep string, digits int) string {
@@ -125,6 +126,14 @@ func renderSRT(d srtDoc, r srtRendering) []byte {
 			if !strings.ContainsAny(c, " \t>\"'=`<") {
 				q = ""
 			}
+		}
+		switch r.FontExtra {
+		case 1:
+			return "<" + name + " " + attr + "=" + q + c + q + ` face="Arial">`
+		case 2:
+			return "<" + name + ` face="Arial" ` + attr + "=" + q + c + q + ">"
+		case 3:
+			return "<" + name + " " + attr + "=" + q + c + q + ` face="Arial" size="12">`
 		}
 		return "<" + name + " " + attr + "=" + q + c + q + ">"
 	}
@@ -438,6 +447,7 @@ func genSRTRendering(t *rapid.T) srtRendering {
 		TagLines:   rapid.IntRange(0, 3).Draw(t, "taglines") == 0,
 		AmpLiteral: rapid.Bool().Draw(t, "amplit"),
 		CoordForm:  rapid.SampledFrom([]int{0, 0, 1, 2}).Draw(t, "coordform"),
+		FontExtra:  rapid.SampledFrom([]int{0, 0, 0, 1, 2, 3}).Draw(t, "fontextra"),
 	}
 	if rapid.IntRange(0, 5).Draw(t, "mixsep") == 0 {
 		r.EndSep = map[string]string{",": ".", ".": ","}[r.Sep]
